@@ -91,6 +91,15 @@ MUTANTS = [
     ('e_delete_before_unlink', ['C17', 'C20'], 'C', [(E, '      prev->next = current->next;\n      delete current;', '      delete current;\n      prev->next = current->next;', 1)], 'node used after delete'),
     ('e_dtor_head_only', ['C20'], 'C20.WALK', [(E, '  auto *pro_next = protected_lists_;\n  while (pro_next != nullptr) {\n    auto *current = pro_next;\n    pro_next = current->next;\n    delete current;\n  }', '  delete protected_lists_;', 1)], 'destructor frees only the head'),
     ('e_global_store_relaxed', ['C16', 'C17'], 'C16.STEP', [(E, 'global_epoch_.store(next_epoch, std::memory_order_release);', 'global_epoch_.store(next_epoch, std::memory_order_relaxed);', 1)], 'publication not a release'),
+    ('z_static_dist', ['C19'], 'C19.TLS', [(ZH, 'thread_local std::uniform_real_distribution<double> uniform_dist{0.0, 1.0};  // NOLINT', 'static std::uniform_real_distribution<double> uniform_dist{0.0, 1.0};  // NOLINT', 1)], 'distribution object shared between threads'),
+    ('z_mutable_counter', ['C19'], 'C19.NOMUT', [(ZH, '  /// @brief A cumulative distribution function according to Zipf\'s law.\n  std::vector<double> zipf_cdf_{};', '  mutable size_t calls_{0};\n  /// @brief A cumulative distribution function according to Zipf\'s law.\n  std::vector<double> zipf_cdf_{};', 1), (ZH, '    const auto target_prob = uniform_dist(g);\n\n    // find a target bin by using a binary search\n    int64_t begin_pos = 0;\n    int64_t end_pos = zipf_cdf_.size() - 1;', '    const auto target_prob = uniform_dist(g);\n    ++calls_;\n\n    // find a target bin by using a binary search\n    int64_t begin_pos = 0;\n    int64_t end_pos = zipf_cdf_.size() - 1;', 1)], 'hidden mutable state in the generator'),
+    ('z_reject_overflow', ['C19'], 'C19.REJECT', [(Z, '  if (max < min) {\n    throw std::runtime_error{"The maximum value must be greater than the minimum one."};\n  }\n  UpdateCDF();\n}\n\ntemplate <class IntType>\nvoid\nZipfDistribution<IntType>::UpdateCDF()', '  if (max + 1 < min) {\n    throw std::runtime_error{"The maximum value must be greater than the minimum one."};\n  }\n  UpdateCDF();\n}\n\ntemplate <class IntType>\nvoid\nZipfDistribution<IntType>::UpdateCDF()', 1)], 'argument check off by one / overflowing'),
+    ('z_no_pin', ['C06'], 'C06.PIN', [(Z, '  zipf_cdf_.at(bin_num - 1) = 1.0;\n', '', 1)], 'last CDF entry not pinned to 1.0'),
+    ('z_pin_wrong_index', ['C06'], 'C06.PIN', [(Z, '    zipf_cdf_.at(n_ - 1) = 1.0;', '    zipf_cdf_.at(n_ - 2) = 1.0;', 1)], 'pin written to the wrong bin'),
+    ('z_denom_minus', ['C06'], 'C06.DENOM', [(Z, 'denom_{GetHarmonicNum(n_)}', 'denom_{GetHarmonicNum(n_ - 1)}', 1)], 'normalisation by H(n-1): last bin above 1'),
+    ('z_switch_le', ['C06'], 'C06.SWITCH', [(ZH, 'if (id < static_cast<IntType>(kExactBinNum)) return zipf_cdf_.at(id);', 'if (id <= static_cast<IntType>(kExactBinNum)) return zipf_cdf_.at(id);', 1)], 'reader reads one past the exact table'),
+    ('z_unchecked_access', ['C06'], 'C06.ACCESS', [(ZH, '      const auto cdf_val = zipf_cdf_.at(pos);', '      const auto cdf_val = zipf_cdf_[pos];', 1)], 'unchecked table access'),
+    ('z_end_pos', ['C06'], 'C06.RANGE', [(ZH, 'int64_t end_pos = n_ - 1;', 'int64_t end_pos = n_;', 1)], 'search interval one bin too wide'),
 ]
 
 REFACTORS = [
@@ -107,6 +116,8 @@ REFACTORS = [
     ('r_i_dtor_assign_null', ['C15', 'C05', 'C14'], [(I, '  id_.reset();  // expire the heartbeat before the ID can be reused', '  id_ = nullptr;', 1)], 'id_ = nullptr instead of reset()'),
     ('r_e_min_local', ['C16', 'C04'], [(E, '  global_epoch_.store(next_epoch, std::memory_order_release);\n  min_epoch_.store(protected_epochs.back(), std::memory_order_relaxed);', '  const auto min_e = protected_epochs.back();\n  global_epoch_.store(next_epoch, std::memory_order_release);\n  min_epoch_.store(min_e, std::memory_order_relaxed);', 1)], 'minimum read into a local first'),
     ('r_e_seqcst', ['C16', 'C17'], [(E, 'global_epoch_.store(next_epoch, std::memory_order_release);', 'global_epoch_.store(next_epoch);', 1)], 'seq_cst store'),
+    ('r_z_reject_spelled', ['C19'], [(Z, '  if (max < min) {', '  if (min > max) {', 0)], 'same test spelled min > max'),
+    ('r_z_pin_back', ['C06'], [(Z, '  zipf_cdf_.at(bin_num - 1) = 1.0;', '  zipf_cdf_.back() = 1.0;', 1)], 'pin through back()'),
 ]
 
 
